@@ -22,7 +22,7 @@ import gym_gridverse.rng as gvrng
 from gym_gridverse.envs import transition_functions as tf
 from gym_gridverse.envs.yaml.factory import factory_env_from_data
 
-from vt import comp, core, envs, gen, impl, osuite, tsuite, wire
+from vt import access, comp, core, envs, gen, impl, osuite, tsuite, wire
 
 T = gen.TY
 
@@ -231,7 +231,7 @@ def seeded(ctx):
             dbg = r.random() < 0.5
             gvdebug.reset_gv_debug(dbg)
             a.set_seed(seed)
-            a._state = a._observation = None
+            access.forget(a)
             np0, py0 = impl._np_legacy_state(), pyrandom.getstate()
             gv_before = gvrng.get_gv_rng().bit_generator.state
             ta = transcript_ops(a, ops)
@@ -248,7 +248,7 @@ def seeded(ctx):
             c.set_seed(r.randrange(1 << 30))
             if impl._np_legacy_state() != np1 or pyrandom.getstate() != py1 or gvrng.get_gv_rng().bit_generator.state != gv1:
                 ctx.violation(f'{name}: set_seed (None, then an integer) changed a global generator state', {'env': name})
-            c._state = c._observation = None
+            access.forget(c)
             tb = []
             for op in ops:
                 if r.random() < 0.4:
